@@ -24,7 +24,9 @@ def run(tier, seed):
              ([(4, 6, 1)], {'schemes': ('asc',), 'decls': ('moved',)}),
              # plus: a listener that reads configuration / time / final on every meta-event, i.e. in the middle of
              # the steps: looking must not change what the interpreter reports afterwards
-             ([(2, 5, 1)], {'schemes': ('asc',), 'decls': ('observed',)})]
+             ([(2, 5, 1)], {'schemes': ('asc',), 'decls': ('observed',)}),
+             # plus: a second interpreter of the same Statechart object is created and driven while the first is alive
+             ([(2, 4, 1)], {'schemes': ('asc',), 'decls': ('bystander',)})]
     return schemes.run('C02', tier, seed, PLAN[tier], ['legal'], {'legal', 'stable', 'final'},
                        RULE, ASSUME, extra_plans=extra)
 
